@@ -1,12 +1,15 @@
 import SigpyVerif.Model.Py
 import SigpyVerif.Model.Proto
 import SigpyVerif.Model.C03
+import SigpyVerif.Gen.StackParams
 /-
   Line protocol of property C03.
 
     C03 eval xs=<shape> x=<gaussian rationals> <prog…>
         prog = reverse-polish construction of the tree, one token per node:
-          L:<oshape>:<ishape>:<dense matrix, row-major>     leaf
+          L:<oshape>:<ishape>:<dense matrix, row-major>     leaf (measured dense matrix; inputs of the advertised shape only)
+          I:<shape>   R:<oshape>:<ishape>                   Identity / Reshape transcribed (`_apply` on ANY input shape:
+                                                            used by the off-rank stream that exercises the zip guards)
           C:<n>  A:<n>            Compose / Add of the top n operators (first pushed = linops[0])
           ML:<a>  MR:<a>  N  S    a*A, A*a, -A, A-B
           H:<n>:<axis>  V:<n>:<axis>  D:<n>:<oaxis>:<iaxis>      axis = int | none
@@ -14,7 +17,11 @@ import SigpyVerif.Model.C03
                `ok <oshape> <ishape> apply-error`                    (built, application raises)
                `err build`                                           (a constructor raises)
     C03 params shapes=<s1>|<s2>|… axis=<int|none>
-        reply: `ok <shape> <indices>` | `err build`
+        reply: `ok <shape> <indices>` | `err build`                  (the model's `stackParams`)
+    C03 gparams fn=<h|v> shapes=<s1>|<s2>|… axis=<int|none>
+        same reply, computed by the translator-generated `Gen.hstackParams` / `Gen.vstackParams`
+    C03 guard got=<ints> adv=<ints>
+        reply: `ok <i> <o> <z>` (1 = passes) for `Gen.checkIshape`, `Gen.checkOshape`, the model's `zipGuard`
 -/
 namespace SigpyVerif.Drv.C03
 open SigpyVerif SigpyVerif.Proto SigpyVerif.C03
@@ -54,6 +61,14 @@ def step (st : List (Op GRat)) (tok : String) : Step :=
       if dat.length ≠ osz * isz then .bad else
       pushR (matOp osh ish (chunkRows isz osz (dat.map toG))) st
     | _, _, _ => .bad
+  | ["I", sh] =>
+    match parseIntList? sh with
+    | some sh => pushR (idOp sh) st
+    | none => .bad
+  | ["R", o, i] =>
+    match parseIntList? o, parseIntList? i with
+    | some osh, some ish => pushR (reshapeOp osh ish) st
+    | _, _ => .bad
   | ["C", n] =>
     match (parseNat? n).bind (popN · st) with
     | some (ops, rest) => pushR (compose ops) rest
@@ -131,6 +146,30 @@ def handle (toks : List String) : String :=
         match stackParams (shapes.map (·.map Int.toNat)) ax with
         | .ok (s, ind) => s!"ok {fmtShape s} {fmtShape ind}"
         | .error _ => "err build"
+      | _, _ => "err bad-op"
+    | _, _ => "err bad-op"
+  | ["gparams", fn, sh, ax] =>
+    match (fn.splitOn "="), (sh.splitOn "="), (ax.splitOn "=") with
+    | ["fn", fn], ["shapes", sh], ["axis", ax] =>
+      match (splitBar sh).mapM parseIntList?, parseAxis? ax with
+      | some shapes, some ax =>
+        if shapes.any (·.any (· < 0)) then "err bad-op" else
+        let shapes := shapes.map (·.map Int.toNat)
+        let r := if fn == "h" then some (Gen.hstackParams shapes ax)
+          else if fn == "v" then some (Gen.vstackParams shapes ax) else none
+        match r with
+        | some (.ok (s, ind)) => s!"ok {fmtShape s} {fmtShape ind}"
+        | some (.error _) => "err build"
+        | none => "err bad-op"
+      | _, _ => "err bad-op"
+    | _, _, _ => "err bad-op"
+  | ["guard", g, a] =>
+    match (g.splitOn "="), (a.splitOn "=") with
+    | ["got", g], ["adv", a] =>
+      match parseIntList? g, parseIntList? a with
+      | some g, some a =>
+        let b := fun (x : Bool) => if x then "1" else "0"
+        s!"ok {b (Gen.checkIshape g a)} {b (Gen.checkOshape g a)} {b (zipGuard g a)}"
       | _, _ => "err bad-op"
     | _, _ => "err bad-op"
   | _ => "err bad-op"
